@@ -1004,21 +1004,26 @@ Theorem C02_xa_failed_save_no_exit : forall (bang : bool) (tab : ntable) (sch : 
 Proof. exact xa_failed_save_no_exit. Qed.
 Print Assumptions C02_xa_failed_save_no_exit.
 
-(* FINDING on the unchanged tree (design.d/C02.md, fixes/C02-xa-saved-unmarked.patch), stated on the model and replayed on the real
-   editor: a REFUSED :xa has written the buffers in front of the refusing slot without recording it (no lbuf_saved).  Table: g (current,
-   clean), f (its file holds `foo`; the text was changed to `bar`), the unnamed start-up buffer.  :xa writes g and f (the file of f holds
-   `bar` now) and is refused at the unnamed slot.  One `u` in f: the buffer is reported CLEAN (the undo position is the one of the
-   last :w / read), its text is `foo`, its file holds `bar` -- and :q over [f; unnamed empty buffer; g] exits. *)
-Theorem C02_xa_refused_partial_save_refuted :
+(* the behaviour repaired by 37c81b2 (the finding of round j: before it a REFUSED :xa had written the buffers in front of the refusing slot
+   without recording it -- after one `u` such a buffer reported clean while its file held the newer text, and :q exited).  On the model, the
+   history of the finding: g (current, clean), f (its file holds `foo`; the text was changed to `bar`), the unnamed start-up buffer.  :xa writes
+   g and f and is refused at the unnamed slot; f is reported clean and its file holds its text; one `u` in f: reported MODIFIED (text `foo`,
+   file `bar`), and :q over [f; unnamed buffer; g] is refused *)
+Theorem C02_xa_refused_records_saves :
   exists (tab : ntable) (f' : nbuf),
     Forall NInv (noccupied tab) /\
     let '(t', q, _, _) := ec_quit_n CXa false WOwn tab [] in
-    q = false /\ nth_error t' 2 = Some (Some f') /\ nname f' = Some 1%nat /\
+    q = false /\ nth_error t' 2 = Some (Some f') /\ nname f' = Some 1%nat /\ dirty_flag (nb f') = false /\ ln (lb (nb f')) = disk (nb f') /\
     let f'' := nrun f' [NUndo; NBump] in
-    dirty_flag (nb f'') = false /\ ln (lb (nb f'')) <> disk (nb f'') /\
-    snd (fst (fst (ec_quit_n CQ false WOwn (Some f'' :: firstn 2 t') []))) = true.
-Proof. exact xa_refused_partial_save. Qed.
-Print Assumptions C02_xa_refused_partial_save_refuted.
+    dirty_flag (nb f'') = true /\ ln (lb (nb f'')) <> disk (nb f'') /\
+    snd (fst (fst (ec_quit_n CQ false WOwn (Some f'' :: firstn 2 t') []))) = false.
+Proof. exact xa_refused_records_saves. Qed.
+Print Assumptions C02_xa_refused_records_saves.
+(* a successful save of the loop keeps the invariant of the buffer's history: the histories that follow a refused :xa are covered by
+   C02_named_history_sound again *)
+Theorem C02_xa_written_inv : forall f, nname f <> None -> NInv f -> NInv (written f).
+Proof. exact written_inv. Qed.
+Print Assumptions C02_xa_written_inv.
 
 (* not vacuous: the same table without the unnamed buffer exits with both files holding the texts (names 2 and 1 handed to lbuf_save);
    with the unnamed buffer holding text in slot 2: xa and xa! are refused and that buffer becomes the current one, q stops at the
